@@ -68,9 +68,40 @@ def mutants(tokens, rng, k=6):
             n = int(op[4:])
             if n < 16:
                 emit("swap-index+1", ins[:j] + [["SWAP%d" % (n + 1)]] + ins[j + 1:])
-    # reorder two stores
-    st = [j for j, x in enumerate(ins) if x[0] in ("MSTORE", "SSTORE")]
     return out[:k]
+
+
+def _stmt(rng):
+    """One height-preserving statement over a base stack of 6 words: a store (word, byte, storage) or a load/hash
+    whose result replaces a base element.  Addresses and values are base elements (possibly aliasing) or constants."""
+    def val(shift):
+        return "DUP%d" % (rng.randint(1, 5) + shift) if rng.random() < 0.7 else "PUSH %x" % rng.choice([0, 1, 7, 0x20, 0xff])
+
+    def addr(shift):
+        return "DUP%d" % (rng.randint(1, 5) + shift) if rng.random() < 0.65 else "PUSH %x" % rng.choice([0, 0x1f, 0x20, 0x21, 0x40])
+    k = rng.random()
+    if k < 0.5:
+        op = rng.choice(["MSTORE", "MSTORE", "SSTORE", "SSTORE", "MSTORE8"])
+        return op, "%s %s %s" % (val(0), addr(1), op)
+    if k < 0.85:
+        op = rng.choice(["MLOAD", "SLOAD"])
+        return op, "%s %s SWAP%d POP" % (addr(0), op, rng.randint(1, 5))
+    return "KECCAK256", "PUSH %x %s KECCAK256 SWAP%d POP" % (rng.choice([0x20, 0x40]), addr(1), rng.randint(1, 5))
+
+
+def stmt_pairs(rng, n):
+    """(kind, B, B'): B a sequence of 2-4 statements, B' the same with two adjacent statements exchanged.  The pair is
+    equivalent exactly when the two statements commute on every state; the checker may say equal only then."""
+    out = []
+    for _ in range(n):
+        sts = [_stmt(rng) for _ in range(rng.randint(2, 4))]
+        i = rng.randrange(len(sts) - 1)
+        sw = sts[:i] + [sts[i + 1], sts[i]] + sts[i + 2:]
+        a = " ".join(t for _, t in sts)
+        b = " ".join(t for _, t in sw)
+        if a != b:
+            out.append(("stmt-swap:%s/%s" % (sts[i][0], sts[i + 1][0]), a, b))
+    return out
 
 
 def analysis_failure_site(block, params):
@@ -193,6 +224,8 @@ def check(run):
         jobs.append((t, t)); kinds.append("reflexive")
         for kind, m in mutants(t.split(), rng, 4 if quick else 8):
             jobs.append((t, m)); kinds.append(kind)
+    for kind, a, b in stmt_pairs(rng, 150 if quick else 900):
+        jobs.append((a, b)); kinds.append(kind)
     optsets = [["-greedy"], ["-greedy", "-storage"]] if quick else [["-greedy"], ["-greedy", "-storage"], ["-greedy", "-partition"], ["-greedy", "-no-simplification"]]
     accepted, ameta = [], []
     evaluations = 0
@@ -243,7 +276,7 @@ def check(run):
         if v is not False:
             continue
         w = pipeline.search_witness(val["a"], val["b"], rng, "c05w")
-        key = {"kind": "accepts-distinguishable", "mutation": kind.split(":")[0] + ":" + kind.split(":")[-1],
+        key = {"kind": "accepts-distinguishable", "mutation": kind.split(":")[0] + ":" + kind.split(":")[-1].split("/")[0],
                "witness": (w or {}).get("kind", "none")}
         what = "GASOL's checker answered equal for %s vs %s (mutation %s)%s" % (
             val["a_plain"], val["b_plain"], kind, "; distinguishing state: %s" % json.dumps(w.get("state")) if w and "state" in w else "")
